@@ -41,6 +41,17 @@ CHECKS = {
          "The decision tables (operators, SignalTypeError Types 1-9, loop-back) are modelled from the code, not derived; block-order independence is by correspondence; duplicate "
          "connections are merged by the code (quirk, proved as dup_is_no_loop); `+=` in an update block raises TypeError (outside the property's operator set).",
          "Lean 4 proof (hierarchical checks <=> bit-level defect predicate; cycle detection for every iteration order) + single-defect injection correspondence", "DESIGN.md §5 C09"),
+ 'C10': ("Lean 4 proof over an executable model of the RTLIR behavioural type checker (visitor + enforcer, Model/TC.lean) and of Python/PythonBits evaluation (Model/PyEval.lean): on every "
+         "accepted clean update block the static width of every sub-expression equals the run-time nbits (width_sound, width_sound_subexpr, explicit_final_width), simulation raises no "
+         "bitwidth / truncation ValueError (no_width_error, stmt_no_width_error, block_no_width_error), explicitly sized operands of different widths in arithmetic, bitwise, comparison, "
+         "if-expression and assignment operations are rejected (explicit_mismatch_rejected, assign_mismatch_rejected, mismatch_raises), literal widths are minimal (literal_min_width*), "
+         "and acceptance implies a declarative typing judgement WT (check_implies_WT*). 'Clean' excludes the property's own exclusions (width-changing cast, misaligned shift) and three "
+         "shapes on which the real checker is unsound, each with a Lean counter-example and a known finding (F12 implicit arithmetic, N1 temporary assigned a literal and a signal, N4 "
+         "arithmetic between if-expressions with a literal branch). Tied to /repo by differential execution of the real Gen + TypeCheck passes (verdict and per-node "
+         "width/_is_explicit/_value), real Bits evaluation of every sub-expression and DefaultPassGroup simulation on the same generated components, with a model-independent oracle.",
+         "proof on the model + bounded correspondence; L1-L2 core language over Bits ports (struct fields, interfaces, arrays, /, **, update_ff not modelled); slices with "
+         "non-integer-expression bounds and widths >= 1024 outside the theorems; F4, N2, N3, N5 found by this check and repaired in /repo; F12, N1, N4 are known findings.",
+         "Lean 4 proof (type-checker soundness w.r.t. an evaluation model) + differential correspondence with the real passes and simulator", "DESIGN.md §5 C10"),
  'C13': ("Lean 4 proof: the module-table checker is exact (wfModules_sound/complete: defined once, closed, legal and unique identifiers); the component table of translate_component holds, "
          "for every name, the body of the first instance of the post-order walk, so it aliases iff names are not injective on bodies (no_alias_iff_names_injective), and the repaired walk "
          "(translateChecked, now in /repo) succeeds exactly when no instance is aliased; full and unique names are injective in the parameter values for a fixed class (separator-free "
